@@ -8,7 +8,9 @@
 
   What is transcribed (branch by branch, as the code stands AFTER the repairs 1ce28a8 — B-spline
   `grid_` clears the buffers —, 3110eb9 — `__copy__` copies the `_parameters` container —, 20bab42 —
-  `link_` deletes a registered parameter `params` first):
+  `link_` deletes a registered parameter `params` first — and the repair of F-15f/g:
+  `CompositeTransform.__copy__` gives the shallow copy of a composite shallow copies of its children,
+  `copyAny`/`copyMembers`):
     src/deepali/spatial/base.py        SpatialTransform.__copy__ @53-71, condition_ @97-102,
                                        grid_ @131-139, _update_hook/register_update_hook @391-399,
                                        NonRigidTransform.tensor @498-525, clear_buffers @545-553
@@ -330,6 +332,26 @@ def World.copyDict (w : World) (k : Nat) : World :=
 def copyObj (w : World) (o : Obj) : World × Nat :=
   (w.copyDict o.pdict).addObj (copyRec w o)
 
+/-- composite.py `CompositeTransform.__copy__` (repair of F-15f/g): the children of a shallow copy of
+    a composite are shallow copies of the original's children, made in order (leaf copy rule). -/
+def copyMembers (w : World) : List Nat → World × List Nat
+  | [] => (w, [])
+  | m :: ms =>
+    match w.objs m with
+    | none => let r := copyMembers w ms; (r.1, m :: r.2)       -- unreachable: members exist
+    | some o =>
+      let r := copyMembers (copyObj w o).1 ms
+      (r.1, (copyObj w o).2 :: r.2)
+
+/-- `shallow_copy(t)`: a leaf by `SpatialTransform.__copy__`; a composite additionally gets copies of
+    its children (`copy._transforms = ModuleDict(… shallow_copy(child) …)`). The composite copy is
+    numbered first, its child copies next, in order. -/
+def copyAny (w : World) (o : Obj) : World × Nat :=
+  if o.cls.isComposite then
+    let r := copyMembers (copyObj w o).1 o.members
+    (r.1.setObj (copyObj w o).2 { copyRec w o with members := r.2 }, (copyObj w o).2)
+  else copyObj w o
+
 /-- parametric.py `link_` from `self.params = other` on (@265-274): assign through `__setattr__`,
     then make sure a buffer `p` exists. Returns the (possibly partially modified) world and an error. -/
 def linkCore (w : World) (id : Nat) (o : Obj) (oid : Nat) (other : Obj) : World × Option Err :=
@@ -551,13 +573,15 @@ def step (w : World) : Op → World × Out
   | .copy id =>
     match w.objs id with
     | none => (w, .err .noobj)
-    | some o => let (w', n) := copyObj w o; (w', .new n)
+    | some o => ((copyAny w o).1, .new (copyAny w o).2)
   | .inverse id link ub =>
     match w.objs id with
     | none => (w, .err .noobj)
     | some o =>
       match o.cls with
       | .seq =>
+        -- `copy = shallow_copy(self)` also copies the children, but `copy._transforms` is replaced by the
+        -- inverses right away: those temporary child copies are unreachable and not numbered
         let (w1, cid) := copyObj w o
         match inverseMembers w1 link ub o.members.reverse with
         | .error e => (w, .err e)
@@ -651,10 +675,12 @@ def step (w : World) : Op → World × Out
     match w.objs id with
     | none => (w, .err .noobj)
     | some o =>
-      let (w1, n) := copyObj w o
-      match gridSet w1 n (copyRec w o) g with
-      | (w', none) => (w', .new n)
-      | (_, some e) => (w, .err e)
+      match (copyAny w o).1.objs (copyAny w o).2 with
+      | none => (w, .err .noobj)
+      | some oc =>
+        match gridSet (copyAny w o).1 (copyAny w o).2 oc g with
+        | (w', none) => (w', .new (copyAny w o).2)
+        | (_, some e) => (w, .err e)
   | .condition_ id c =>
     match w.objs id with
     | none => (w, .err .noobj)
@@ -663,8 +689,7 @@ def step (w : World) : Op → World × Out
     match w.objs id with
     | none => (w, .err .noobj)
     | some o =>
-      let (w1, n) := copyObj w o
-      (condSet w1 n c, .new n)
+      (condSet (copyAny w o).1 (copyAny w o).2 c, .new (copyAny w o).2)
   | .reset id =>
     match w.objs id with
     | none => (w, .err .noobj)
